@@ -84,25 +84,34 @@ fn probe(sc: &Value) -> Value {
         }
     } else if kind == "queue-blocking-emit" {
         // two producers race for the last slot of a bounded queue whose wrapped sink never returns
-        for round in 0..200 {
+        for round in 0..1500 {
             let sh = Arc::new(Shared { entered: Mutex::new(vec![]), finished: AtomicUsize::new(0), dropped: AtomicBool::new(false), outcomes: Mutex::new(vec![]) });
             let (tx, rx) = channel::<String>();
             let q = QueuingMetricSink::with_capacity(GatedSink { sh: sh.clone(), gate: Mutex::new(rx) }, 1);
             let _ = q.emit("first:1|c");
             let _ = wait_until(|| sh.entered.lock().unwrap().len() >= 1, 1500);
             let done = Arc::new(AtomicUsize::new(0));
-            let barrier = Arc::new(std::sync::Barrier::new(3));
+            let go = Arc::new(AtomicBool::new(false));
+            let ready = Arc::new(AtomicUsize::new(0));
+            let nthr = 4;
             let mut hs = vec![];
-            for t in 0..2 {
-                let (q2, d2, b2) = (q.clone(), done.clone(), barrier.clone());
+            for t in 0..nthr {
+                let (q2, d2, g2, r2) = (q.clone(), done.clone(), go.clone(), ready.clone());
                 hs.push(std::thread::spawn(move || {
-                    b2.wait();
-                    let _ = q2.emit(&format!("t{}:1|c", t));
+                    let m = format!("t{}:1|c", t);
+                    r2.fetch_add(1, Ordering::SeqCst);
+                    while !g2.load(Ordering::Acquire) {
+                        std::hint::spin_loop();
+                    }
+                    let _ = q2.emit(&m);
                     d2.fetch_add(1, Ordering::SeqCst);
                 }));
             }
-            barrier.wait();
-            let returned = wait_until(|| done.load(Ordering::SeqCst) == 2, 1500);
+            while ready.load(Ordering::SeqCst) < nthr {
+                std::thread::yield_now();
+            }
+            go.store(true, Ordering::Release);
+            let returned = wait_until(|| done.load(Ordering::SeqCst) == nthr, 1500);
             for _ in 0..8 {
                 let _ = tx.send("ok".to_string());
             }
